@@ -328,6 +328,16 @@ class World:
             idxs.append(next(i for i, a in enumerate(requests) if a is q))
         self.log({"ev": "waitsome_ret", "rank": rank, "idx": sorted(idxs),
                   "posted_idx": sorted(q.idx for q, _ in chosen)})
+        # MPI reports the completed indices in NO particular order: ascending, descending
+        # and rotated in turn (deterministic), so that a caller that relies on an order is
+        # exposed
+        self._ws_calls = getattr(self, "_ws_calls", 0) + 1
+        mode = self._ws_calls % 3
+        idxs = sorted(idxs)
+        if mode == 1:
+            idxs = idxs[::-1]
+        elif mode == 2 and len(idxs) > 1:
+            idxs = idxs[1:] + idxs[:1]
         return idxs
 
     def sends_matchable(self, rank: int, only: SendReq | None = None) -> bool:
